@@ -1,4 +1,3 @@
-use ron::from_str;
 
 use super::FlowArgs;
 use crate::cli::common::args::OutputConfig;
@@ -12,6 +11,7 @@ use crate::cli::version::pipeline::run_version_pipeline;
 use crate::error::ZervError;
 use crate::utils::constants::post_modes;
 use crate::version::zerv::core::Zerv;
+use crate::version::zerv::zerv_ron_options;
 
 impl FlowArgs {
     /// Create base VersionArgs with shared configuration
@@ -57,7 +57,8 @@ impl FlowArgs {
             self.create_version_args(BumpsConfig::default(), self.overrides.common.dirty);
 
         let ron_output = run_version_pipeline(version_args, stdin_content)?;
-        from_str(&ron_output)
+        zerv_ron_options()
+            .from_str(&ron_output)
             .map_err(|e| ZervError::InvalidFormat(format!("Failed to parse version output: {}", e)))
     }
 
